@@ -255,6 +255,21 @@ func c06Bodies(c *Ctx, r *gen.R) error {
 				if special == "default" {
 					v = dynamicpb.NewMessage(md)
 				}
+				if k == 2 {
+					// every proto3 `optional` scalar PRESENT with its zero value ("" / 0 / false): set, hence
+					// `required` is met, and on the wire as the zero value
+					fds := md.Fields()
+					for fi := 0; fi < fds.Len(); fi++ {
+						fd := fds.Get(fi)
+						if fd.HasOptionalKeyword() && fd.Kind() != protoreflect.MessageKind && fd.Kind() != protoreflect.GroupKind {
+							v.Set(fd, fd.Default())
+							special = "optional_zero"
+						}
+					}
+				}
+				if hasRules(m) {
+					satisfyRequired(m, v)
+				}
 				ks := &kase{x: x, full: full, name: m.Name, val: v, doc: svcDoc, special: special}
 				ks.encOp = map[string]any{"op": "enc", "type": strings.TrimPrefix(full, "."), "val": jsonRaw(gen.PJ(v))}
 				ks.dop = map[string]any{"op": "spec_enc", "rq": model, "type": full, "val": gen.ValJSON(v)}
@@ -449,6 +464,30 @@ func plainJSON(v any) any {
 		return out
 	}
 	return v
+}
+
+// satisfyRequired makes v meet the `required` rules of m: a required field WITHOUT presence (plain proto3
+// scalar) must not hold its zero value — the generated values draw "" / 0 now and then.
+func satisfyRequired(m *ir.Message, v *dynamicpb.Message) {
+	for _, f := range m.Fields {
+		if f.Rules == nil || !f.Rules.Required || f.Card != "" {
+			continue
+		}
+		fd := v.Descriptor().Fields().ByName(protoreflect.Name(f.Name))
+		if fd == nil || fd.HasPresence() || v.Has(fd) {
+			continue
+		}
+		switch fd.Kind() {
+		case protoreflect.StringKind:
+			v.Set(fd, protoreflect.ValueOfString("x"))
+		case protoreflect.BoolKind:
+			v.Set(fd, protoreflect.ValueOfBool(true))
+		case protoreflect.Int32Kind, protoreflect.Sint32Kind, protoreflect.Sfixed32Kind:
+			v.Set(fd, protoreflect.ValueOfInt32(1))
+		case protoreflect.Int64Kind, protoreflect.Sint64Kind, protoreflect.Sfixed64Kind:
+			v.Set(fd, protoreflect.ValueOfInt64(1))
+		}
+	}
 }
 
 func hasRules(m *ir.Message) bool {
